@@ -51,6 +51,7 @@ type session struct {
 	manifest       *journal.Writer
 	manifestWriter storage.Writer
 	manifestFd     storage.FileDesc
+	manifestBroken bool // a write to the manifest failed; need external synchronization
 
 	stCompPtrs  []internalKey // compaction pointers; need external synchronization
 	stVersion   *version      // current version
@@ -236,7 +237,10 @@ func (s *session) commit(r *sessionRecord, trivial bool) (err error) {
 	if s.manifest == nil {
 		// manifest journal writer not yet created, create one
 		err = s.newManifest(r, nv)
-	} else if s.manifest.Size() >= s.o.GetMaxManifestFileSize() {
+	} else if s.manifestBroken || s.manifest.Size() >= s.o.GetMaxManifestFileSize() {
+		// (A manifest whose last write failed is not appended to again: its
+		// writer keeps the error and its tail is unknown. A new manifest is a
+		// complete snapshot.)
 		// pass a sessionRecord without tables to avoid over-reference table
 		// file (the new version already has them), but keep the journal and
 		// sequence numbers of r: they must reach the new manifest.
@@ -251,8 +255,14 @@ func (s *session) commit(r *sessionRecord, trivial bool) (err error) {
 			rec.setSeqNum(r.seqNum)
 		}
 		err = s.newManifest(rec, nv)
+		if err == nil {
+			s.manifestBroken = false
+		}
 	} else {
 		err = s.flushManifest(r)
+		if err != nil {
+			s.manifestBroken = true
+		}
 	}
 
 	// finally, apply new version if no error rise
